@@ -749,7 +749,13 @@ package zygo
 //@ C16 assert wrapped-only-if-lazy @before call NewSourceLazyArg[0]: function != nil && !function.user && lazyPos(function, i)
 //@ C16 assert strict-is-evaluated @before call EvalCallExpression[0]: !(function != nil && !function.user && function.hasLazyFormals && lazyPos(function, i))
 
-// compile-time path (tail self-calls)
+// compile-time path (tail self-calls): the layout of lazy positions comes from the
+// definition being compiled when there is one (a redefinition may change which parameters
+// are lazy; the function bound in the environment is the OLD definition at that time)
+//@ func (*Generator).LookupKnownFunction
+//@ C16 ensures definition-being-compiled-wins: old(sym != nil && gen.knownFunctions != nil && has(gen.knownFunctions, sym.number) && gen.knownFunctions[sym.number] != nil) ==> r0 == old(gen.knownFunctions[sym.number])
+//@ func (*Generator).GenerateCallBySymbol
+//@ C16 assert layout-of-the-callee-itself @before call GenerateCallArgsForFunction[0]: arg0 == gen && same(arg2, args)
 //@ func (*Generator).GenerateCallArgsForFunction
 //@ C16 assert wrapped-only-if-lazy @before call AddInstruction[0]: function != nil && lazyPos(function, i)
 //@ C16 assert strict-is-compiled @before call Generate[0]: !(function != nil && lazyPos(function, i))
